@@ -501,6 +501,90 @@ func sizeObservation(op string, attrs []attr, mkIns func() []tensor.Tensor) {
 	}
 }
 
+var orderAll = goOnlyResult{Stream: "element_order_independence", Rule: "elementwise operators (unary, Cast, binary and PRelu on operands of one shape) map every element on its own: the same case with the elements of every operand in REVERSED order must return, bit for bit, the reversed result (nothing may be carried from one element to the next)", Violations: []string{}}
+
+func reversed(t tensor.Tensor) tensor.Tensor {
+	v := reflect.ValueOf(t.Data())
+	n := v.Len()
+	d := reflect.MakeSlice(v.Type(), n, n)
+	for i := 0; i < n; i++ {
+		d.Index(i).Set(v.Index(n - 1 - i))
+	}
+	return tensor.New(tensor.WithShape(t.Shape().Clone()...), tensor.WithBacking(d.Interface()))
+}
+
+// orderObservation: the conditions of sizeObservation (all operands of one non-scalar shape, one result of that shape)
+func orderObservation(op string, attrs []attr, mkIns func() []tensor.Tensor) {
+	ins := mkIns()
+	var shape0 []int
+	for _, t := range ins {
+		if t == nil {
+			continue
+		}
+		if len(t.Shape()) == 0 || reflect.ValueOf(t.Data()).Kind() != reflect.Slice {
+			return
+		}
+		if shape0 == nil {
+			shape0 = t.Shape().Clone()
+		} else if !t.Shape().Eq(tensor.Shape(shape0)) || len(t.Shape()) != len(shape0) {
+			return
+		}
+	}
+	if shape0 == nil || numel(shape0) < 2 {
+		return
+	}
+	run := func(ins []tensor.Tensor) (out tensor.Tensor) {
+		defer func() {
+			if r := recover(); r != nil {
+				out = nil
+			}
+		}()
+		o, err := opset13.GetOperator(op)
+		if err != nil {
+			return nil
+		}
+		var aps []*onnx.AttributeProto
+		for _, a := range attrs {
+			aps = append(aps, a.proto())
+		}
+		if err := o.Init(&onnx.NodeProto{Attribute: aps, Output: nodeOutputs}); err != nil {
+			return nil
+		}
+		v, err := o.ValidateInputs(ins)
+		if err != nil {
+			return nil
+		}
+		res, err := o.Apply(v)
+		if err != nil || len(res) != 1 {
+			return nil
+		}
+		return res[0]
+	}
+	res := run(ins)
+	if res == nil || len(res.Shape()) != len(shape0) || !res.Shape().Eq(tensor.Shape(shape0)) || reflect.ValueOf(res.Data()).Kind() != reflect.Slice {
+		return
+	}
+	rev := make([]tensor.Tensor, len(ins))
+	for i, t := range mkIns() {
+		if t != nil {
+			rev[i] = reversed(t)
+		}
+	}
+	orderAll.N++
+	rres := run(rev)
+	got := "no result"
+	if rres != nil && reflect.ValueOf(rres.Data()).Kind() == reflect.Slice && rres.Shape().Eq(tensor.Shape(shape0)) {
+		got = tval(reversed(rres))
+	}
+	if want := tval(res); got != want && len(orderAll.Violations) < 10 {
+		ap := make([]string, len(attrs))
+		for i, x := range attrs {
+			ap[i] = x.gallina()
+		}
+		orderAll.Violations = append(orderAll.Violations, fmt.Sprintf("%s [%s] on %s: with every operand's elements in reversed order the (re-reversed) result is %s, in the given order it is %s", op, strings.Join(ap, ";"), clip(tvals(mkIns()), 300), clip(got, 300), clip(want, 300)))
+	}
+}
+
 func maxInt(a, b int) int {
 	if a > b {
 		return a
@@ -711,6 +795,7 @@ func sideObservations(op string, attrs []attr, mkIns func() []tensor.Tensor, obs
 	}
 	if elementwiseOps[op] {
 		sizeObservation(op, attrs, mkIns)
+		orderObservation(op, attrs, mkIns)
 	}
 	if reuseSkip[op] && !convReuseTwin {
 		if op == "Conv" {
